@@ -63,6 +63,7 @@ def check(ctx):
             _biconj(rep, model, name, builder, rel, line)
     rep.floor('R1', 'conjugate instances', n, 12)
     _moreau(rep, model)
+    _pairing(rep, model)
     return rep
 
 
@@ -118,3 +119,195 @@ def _moreau(rep, model):
         rep.undecided('R3', tag, str(e), PROXF, fn.lineno)
     except PyRaise as e:
         rep.violation('R3', tag, 'raises %s' % e.name, PROXF, fn.lineno)
+
+
+# --------------------------------------------------------------------------
+# R4: conjugate pairing table -- norms and unit-ball indicators are
+# conjugate with the *dual* exponent, in both directions
+def _pairing(rep, model):
+    from ..symex import (Interp, Hooks, Inst, ClassV, Rec, Opaque, Builtin,
+                         PyRaise, is_scalar, to_rat)
+    from fractions import Fraction as Fr
+    DEFF_ = 'odl/solvers/functional/default_functionals.py'
+    INF = Opaque('inf')
+
+    class PH(Hooks):
+        def __init__(self):
+            self.made = []
+
+        def on_name(self, interp, name):
+            if name == 'float':
+                return Builtin('float', lambda v=0: INF if (
+                    v == 'inf' or v is INF) else to_rat(v))
+            return NotImplemented
+
+        def on_call(self, interp, f, args, kwargs, node):
+            if isinstance(f, ClassV) and interp.model.is_subclass(
+                    f.ci, 'Functional'):
+                r = Rec('made:' + f.ci.name, cls=f.ci.name, args=list(args),
+                        kwargs=dict(kwargs))
+                self.made.append(r)
+                return r
+            return NotImplemented
+
+        def on_getattr(self, interp, obj, name):
+            from ..symex import NPV
+            if obj is NPV and name == 'inf':
+                return INF
+            if isinstance(obj, Rec) and name in obj.attrs:
+                return obj.attrs[name]
+            return NotImplemented
+
+    class PI(Interp):
+        def equal(self, l, r, node):
+            if l is INF or r is INF:
+                return l is r
+            return Interp.equal(self, l, r, node)
+
+    def dual(p):
+        if p is INF:
+            return Rat.const(1)
+        if p == 1:
+            return INF
+        return Rat.const(Fr(p) / (Fr(p) - 1))
+
+    def same(a, b):
+        if a is INF or b is INF:
+            return a is b
+        return is_scalar(a) and is_scalar(b) and (to_rat(a) - to_rat(
+            b)).is_zero()
+
+    EXPS = [Fr(1), Fr(2), INF, Fr(3), Fr(3, 2)]
+    dom = Rec('domain')
+
+    def ex(p):
+        return p if p is INF else Rat.const(p)
+
+    def single(cls, attrs_of, partner, exps_of):
+        """attrs_of(p...) -> instance attrs; exps_of(record) -> exponents
+        handed to the partner constructor."""
+        ci = model.get(cls)
+        if ci is None:
+            raise AnalysisError('anchor vanished: %s' % cls)
+        return ci
+
+    table = []
+    # (class, number of exponents, attrs builder, partner, extractor)
+    def a_lp(p):
+        return {'exponent': ex(p[0])}
+
+    def a_group(p):
+        return {'pointwise_norm': Rec('PointwiseNorm', exponent=ex(p[0]))}
+
+    def a_nuc(p):
+        return {'outernorm': Rec('LpNorm', exponent=ex(p[0])),
+                'pwisenorm': Rec('PointwiseNorm', exponent=ex(p[1]))}
+
+    def a_inuc(p):
+        return {'_IndicatorNuclearNormUnitBall__norm': Rec(
+            'NuclearNorm', outernorm=Rec('LpNorm', exponent=ex(p[0])),
+            pwisenorm=Rec('PointwiseNorm', exponent=ex(p[1])))}
+
+    def x_kw(r, n):
+        a = list(r.attrs['args'][1:])
+        kw = r.attrs['kwargs']
+        if n == 1:
+            return [kw['exponent'] if 'exponent' in kw else (
+                a[0] if a else None)]
+        names = ['outer_exp', 'singular_vector_exp']
+        return [kw[names[i]] if names[i] in kw else (
+            a[i] if i < len(a) else None) for i in range(2)]
+
+    table = [
+        ('LpNorm', 1, a_lp, 'IndicatorLpUnitBall'),
+        ('IndicatorLpUnitBall', 1, a_lp, 'LpNorm'),
+        ('GroupL1Norm', 1, a_group, 'IndicatorGroupL1UnitBall'),
+        ('IndicatorGroupL1UnitBall', 1, a_group, 'GroupL1Norm'),
+        ('NuclearNorm', 2, a_nuc, 'IndicatorNuclearNormUnitBall'),
+        ('IndicatorNuclearNormUnitBall', 2, a_inuc, 'NuclearNorm'),
+    ]
+    n = 0
+    for cls, nexp, mk, partner in table:
+        ci = model.get(cls)
+        if ci is None or model.lookup(ci, 'convex_conj')[1] is None:
+            raise AnalysisError('anchor vanished: %s.convex_conj' % cls)
+        import itertools as _it
+        for ps in _it.product(EXPS, repeat=nexp):
+            tag = '%s[%s].convex_conj' % (cls, ','.join(
+                'inf' if p is INF else str(p) for p in ps))
+            n += 1
+            try:
+                h = PH()
+                I = PI(model, {}, h)
+                inst = Inst(ci)
+                inst.attrs.update(mk(ps))
+                inst.attrs['_Operator__domain'] = dom
+                r = I.getattr_value(inst, 'convex_conj')
+                probs = []
+                FIXED = {'L1Norm': Rat.const(1), 'L2Norm': Rat.const(2)}
+                if isinstance(r, Rec) and partner == 'LpNorm' and \
+                        r.attrs.get('cls') in FIXED:
+                    # the fixed-exponent subclasses of LpNorm
+                    if not same(FIXED[r.attrs['cls']], dual(ps[0])):
+                        probs.append('conjugate is %s, the dual exponent is '
+                                     '%r' % (r.attrs['cls'], dual(ps[0])))
+                    elif not r.attrs['args'] or r.attrs['args'][0] is not \
+                            dom:
+                        probs.append('not on the same space')
+                elif not (isinstance(r, Rec) and r.attrs.get('cls') ==
+                          partner):
+                    probs.append('conjugate is %r, expected a %s'
+                                 % (r, partner))
+                else:
+                    if not r.attrs['args'] or r.attrs['args'][0] is not dom:
+                        if r.attrs['kwargs'].get('space') is not dom:
+                            probs.append('not on the same space')
+                    got = x_kw(r, nexp)
+                    for g, p in zip(got, ps):
+                        if g is None or not same(g, dual(p)):
+                            probs.append(
+                                'exponent %r handed on for p = %s, the dual '
+                                'exponent is %r' % (
+                                    g, 'inf' if p is INF else p, dual(p)))
+                if probs:
+                    rep.violation('R4', cls + '.convex_conj', '%s: %s'
+                                  % (tag, probs[0]), DEFF_,
+                                  model.lookup(ci, 'convex_conj')[1].lineno)
+                else:
+                    rep.holds('R4', tag, 'conjugate %s with the dual '
+                              'exponent' % partner)
+            except Undecided as e:
+                rep.undecided('R4', tag, str(e), DEFF_)
+            except PyRaise as e:
+                rep.violation('R4', cls + '.convex_conj', '%s: raises %s'
+                              % (tag, e.name), DEFF_)
+    # prior-carrying pairs
+    for cls, partner in (('KullbackLeibler', 'KullbackLeiblerConvexConj'),
+                         ('KullbackLeiblerConvexConj', 'KullbackLeibler'),
+                         ('KullbackLeiblerCrossEntropy',
+                          'KullbackLeiblerCrossEntropyConvexConj'),
+                         ('KullbackLeiblerCrossEntropyConvexConj',
+                          'KullbackLeiblerCrossEntropy')):
+        ci = model.get(cls)
+        tag = cls + '.convex_conj'
+        n += 1
+        try:
+            h = PH()
+            I = PI(model, {}, h)
+            inst = Inst(ci)
+            prior = Rec('prior')
+            inst.attrs['_%s__prior' % cls] = prior
+            inst.attrs['_Operator__domain'] = dom
+            r = I.getattr_value(inst, 'convex_conj')
+            ok = isinstance(r, Rec) and r.attrs.get('cls') == partner and \
+                r.attrs['args'][:1] == [dom] and (
+                    prior in r.attrs['args'] or prior in
+                    r.attrs['kwargs'].values())
+            if ok:
+                rep.holds('R4', tag, 'conjugate %s, same space and prior'
+                          % partner)
+            else:
+                rep.violation('R4', tag, 'conjugate is %r' % (r,), DEFF_)
+        except Undecided as e:
+            rep.undecided('R4', tag, str(e), DEFF_)
+    rep.floor('R4', 'conjugate pairs', n, 70)
